@@ -836,7 +836,7 @@ class Run:
         except _Break:
             how = "break"
         except _Continue:
-            how = "continue"
+            how = "end"  # `continue` = falling off the end of the body: the iteration is over either way
         self.act("loop-end", [("unk", how)])
         for n in carried:
             val = ("unk", "loop(%s)" % showv(env2.get(n, env[n])))
